@@ -10,7 +10,7 @@ from ..runner import Suite
 from .. import core, stdio_gen as G, stdio_out as O
 
 MANIFEST = dict(
-    text="Lean 4 theorems about an executable model of StdioClient._stdin_writer over a JSON value type with a compact and a stdlib-style encoder: for every sequence of outbound items (typed message / dict by the value it denotes, pre-serialised single-line string, unserialisable object) of any length, the bytes the child receives split at LF into exactly the encodings of the serialisable items' lines, in order, nothing left over; no line contains a raw LF or CR (encoder theorem by mutual induction over all JSON values, all code points, both styles); the bytes are valid UTF-8 decoding back to the lines; an unserialisable item changes neither the bytes nor the sends around it; stdin is closed exactly when the write stream is closed, after all writes. Correspondence: the real writer is driven through the anyio.open_process seam, the captured bytes are split and JSON-decoded and compared with the model's, with orjson present, with orjson blocked (worker process) and, in the thorough tier, under the fallback backend.",
+    text="Lean 4 theorems about an executable model of StdioClient._stdin_writer over a JSON value type with a compact and a stdlib-style encoder: for every sequence of outbound items (typed message / dict by the value it denotes, pre-serialised single-line string, unserialisable object) of any length, the bytes the child receives split at LF into exactly the encodings of the serialisable items' lines, in order, nothing left over; no line contains a raw LF or CR (encoder theorem by mutual induction over all JSON values, all code points, both styles); the bytes are valid UTF-8 decoding back to the lines; an unserialisable item changes neither the bytes nor the sends around it; stdin is closed exactly when the write stream is closed, after all writes; and for the TWO writers of the child's stdin (the outgoing-stream writer task and the stdout reader task's batch-rejection write-back), for every interleaving of their send() calls the byte stream splits at LF into an interleaving of exactly the accepted outbound lines in order and the complete rejection lines - no line is ever torn, every line is one whole message or one whole rejection. Correspondence: the real writer is driven through the anyio.open_process seam, the captured bytes are split and JSON-decoded and compared with the model's, with orjson present, with orjson blocked (worker process) and, in the thorough tier, under the fallback backend; a duplex suite drives both directions at once against a scripted child that is slow to read its stdin (send() suspends per accepted bytes in virtual time) while its stdout emits batch arrays at versions without batching, with outbound messages of 65 KB to 300 KB: the lines the child received must be the outbound messages in order interleaved only with complete -32600 rejection lines.",
     note="Partial in one named respect: 'decoded value equals the message' rests on the correspondence run (which decodes every line the real writer emitted) - the model's line IS enc(value); dec(enc v)=v is C17's theorem. Pydantic / orjson / stdlib json are sampled, not proved. A caller-supplied string containing a raw line break is outside the property (explicit guard in the theorems, never generated).",
     technique="Lean 4 proof over a hand-written executable model + correspondence run against the real StdioClient",
     design="5/C06",
@@ -26,13 +26,19 @@ THEOREMS = [
     "c06_drop_isolated",
     "c06_sequence_is_concatenation",
     "c06_close_closes_stdin",
+    "c06_two_writers_lines_intact",
+    "c06_two_writers_every_schedule",
+    "c06_each_line_message_or_rejection",
+    "c06_two_writers_line_count",
 ]
 RULE = (
     "sequences of 0..8 outbound items of the three accepted shapes (typed request / notification / response / error / "
     "legacy message, plain dict, pre-serialised single-line string) with params/results over nested JSON values whose "
     "strings contain LF, CR, CRLF, U+2028/2029, U+0085, NUL, quotes, backslashes, 2/3/4-byte characters, big integers; "
     "unserialisable objects of seven kinds at every position of directed sequences; write stream closed / left open; "
-    "each sequence run with orjson, without orjson (worker) and (thorough) under the fallback backend; "
+    "each sequence run with orjson, without orjson (worker) and (thorough) under the fallback backend; duplex: outbound "
+    "messages of 65 KB..300 KB (dict / typed / pre-serialised) among small ones x stdin drain rates x batch arrays from the "
+    "child at times spread over the whole drain window x versions without / with batching; "
     "non-trivial = distinct (backend, sequence)"
 )
 TRUSTED = ["scripted process behind anyio.open_process (py/verifpy/stdio_h.py)", "stdlib json used by the harness to decode the captured lines"]
@@ -40,6 +46,8 @@ ASSUMPTIONS = [
     "a caller-supplied string is a single-line pre-serialised message (no raw LF/CR): guard of the property",
     "Pydantic's model_dump_json(exclude_none=True), orjson.dumps and json.dumps denote the value they are given (sampled)",
     "floats are not generated (opaque in the model)",
+    "one send() on the child's stdin appends its bytes to the pipe as a unit (anyio/asyncio StreamWriter.write); the two "
+    "tasks interleave at send() granularity - the scripted stdin implements exactly that and suspends the caller afterwards",
 ]
 
 UNSER = ["object", "dict-object", "dict-set", "dict-bytes", "tuple-key", "typed-object", "lone-surrogate"]
@@ -256,5 +264,192 @@ class Writer(Suite):
                     yield dict(case, items=items[:i] + [s] + items[i + 1:])
 
 
+BATCH_LINE = ('[{"jsonrpc":"2.0","method":"notifications/message","params":{"level":"info","data":"x"}},'
+              '{"jsonrpc":"2.0","id":9,"method":"ping"}]\n')
+SMALL_A = {"k": "dict", "v": {"jsonrpc": "2.0", "id": 1, "method": "ping"}}
+SMALL_C = {"k": "raw", "s": '{"jsonrpc":"2.0","method":"notifications/initialized"}'}
+SMALL_T = {"k": "typed", "cls": "notification", "f": {"method": "notifications/cancelled", "params": {"requestId": "r\n1"}}}
+
+
+class Duplex(Suite):
+    """Both writers of the child's stdin at once: the outgoing-stream writer task (large messages
+    included) and the stdout reader task, which writes a rejection error line for every batch it
+    receives at a version without batching - against a child that is slow to read its stdin."""
+
+    name = "duplex"
+
+    @staticmethod
+    def mk(version, items, drain, times):
+        stdout, prev = [], 0
+        for t in times:
+            stdout.append({"sleep": round(t - prev, 3)})
+            stdout.append({"c": BATCH_LINE.encode().hex()})
+            prev = t
+        case = {"items": items, "drain": drain, "stdout": stdout, "close": True}
+        if version != "unset":
+            case["set"] = version
+        return case
+
+    def cases(self, ctx, budget):
+        rng = ctx.sub_rng("duplex", budget)
+        out = []
+        sizes = [65_000, 66_000, 70_000, 140_000, 220_000, 300_000]
+        shapes = ["dict", "typed", "raw"]
+        for size in sizes:
+            for shape in shapes:
+                for drain in (8192, 32768):
+                    total = size / drain + 1
+                    pats = [[0.5], [total * 0.3], [total * 0.6], [0.5, total * 0.45, total * 0.9], [total * 0.2, total * 0.21],
+                            [total + 40]]
+                    big = {"k": "big", "shape": shape, "size": size}
+                    for times in rng.sample(pats, 2 if budget == "quick" else len(pats)):
+                        out.append(self.mk("2025-06-18", [SMALL_A, big, SMALL_C], drain, times))
+        # two large messages in a row, an unserialisable object between them, rejections all along
+        for drain in (4096, 65536):
+            items = [{"k": "big", "shape": "typed", "size": 210_000, "id": 2}, {"k": "unser", "how": "object"},
+                     {"k": "big", "shape": "dict", "size": 90_000, "id": 3}, SMALL_T]
+            total = 300_000 / drain
+            out.append(self.mk("2025-06-18", items, drain, [total * k / 7 + 0.5 for k in range(7)]))
+            out.append(self.mk("2026-01-01", items, drain, [total * k / 3 + 0.25 for k in range(3)]))
+        # versions with batching / never negotiated: the batches are delivered, nothing is written back
+        for v in ("2025-03-26", "2024-11-05", "unset"):
+            out.append(self.mk(v, [SMALL_A, {"k": "big", "shape": "dict", "size": 150_000}, SMALL_C], 8192, [0.5, 5.5, 12.5]))
+        # a child that reads at once; small messages only; no traffic from the child
+        out.append(self.mk("2025-06-18", [SMALL_A, {"k": "big", "shape": "raw", "size": 220_000}, SMALL_C], 0, [0.5]))
+        out.append(self.mk("2025-06-18", [SMALL_A, SMALL_T, SMALL_C], 16, [0.5, 3.5, 6.5, 20.5]))
+        out.append(self.mk("2025-06-18", [SMALL_A, {"k": "big", "shape": "typed", "size": 220_000}], 8192, []))
+        n = 16 if budget == "quick" else 200
+        for _ in range(n):
+            items = []
+            for _ in range(rng.randrange(1, 5)):
+                r = rng.random()
+                if r < 0.45:
+                    items.append({"k": "big", "shape": rng.choice(shapes), "size": rng.choice([30_000, 66_000, 100_000, 131_073, 200_000]),
+                                  "id": rng.randrange(1, 99)})
+                elif r < 0.9:
+                    items.append(rand_item(rng))
+                else:
+                    items.append({"k": "unser", "how": rng.choice(UNSER)})
+            drain = rng.choice([1024, 8192, 30_000, 70_000])
+            span = sum(it.get("size", 200) for it in items) / drain + 2
+            times = sorted(round(rng.uniform(0, span), 2) + 0.005 for _ in range(rng.randrange(0, 5)))
+            out.append(self.mk(rng.choice(["2025-06-18", "2025-06-18", "2025-07-01", "2025-03-26"]), items, drain, times))
+        return out
+
+    # ------------------------------------------------------------------ implementation
+    def impl_batch(self, cases):
+        return O.run_duplex(cases)
+
+    # ------------------------------------------------------------------ model
+    def model_line(self, case, obs):
+        if "harness_error" in obs:
+            return None
+        items = []
+        for it in case["items"]:
+            e = O.expected_line(it)
+            if e is None:
+                items.append({"k": "unser"})
+            elif "json" in e:
+                items.append({"k": "value", "v": e["json"]})
+            else:
+                items.append({"k": "raw", "s": e["text"]})
+        # the scheduler's choice is an input of the two-writer model: which of the child's lines came from
+        # the reader task (complete rejection errors), in the observed order
+        rej = [("json" in ln and O.is_rejection(ln["json"])) for ln in obs["lines"]]
+        return {"m": "stdio_writer", "items": items, "close": case.get("close", True), "style": "compact",
+                "rejs": [ln["json"] for ln, r in zip(obs["lines"], rej) if r], "sched": [not r for r in rej]}
+
+    def model_obs(self, out, case):
+        if "driver_error" in out:
+            return out
+        d = O.decode_lines(bytes.fromhex(out["bytes"]))
+        return {"lines": [{"key": O.line_key(ln), "text_key": O.line_key(ln, raw=True)} for ln in d["lines"]],
+                "tail": d["tail"][:200], "closed_after": out["closed"]}
+
+    def compare(self, case, o, m):
+        if "harness_error" in o or "driver_error" in m:
+            return "error"
+        if len(o["lines"]) != len(m["lines"]):
+            return "number of lines"
+        for i, (a, b) in enumerate(zip(o["lines"], m["lines"])):
+            if a["key"] != b["key"] and a["text_key"] != b["text_key"]:
+                return f"line {i}"
+        if o["tail"] != m["tail"]:
+            return "tail"
+        if o["closed_after"] != m["closed_after"]:
+            return "closed"
+        return None
+
+    # ------------------------------------------------------------------ property oracle
+    def oracle(self, case, o):
+        want = [e for e in (O.expected_line(it) for it in case["items"]) if e is not None]
+        wkeys = [O.line_key(e, raw=("json" not in e)) for e in want]
+        exp = {"outbound_lines_in_order": wkeys, "other_lines": "complete -32600 rejection errors only",
+               "stdin_closed": bool(case.get("close", True))}
+        if "harness_error" in o:
+            return ("client-raised", f"the stdio client raised {o['harness_error']}", exp)
+        if o["tail"] != "":
+            return ("unterminated-line", "the bytes at the child's stdin do not end with a newline", exp)
+        i = 0
+        for n, ln in enumerate(o["lines"]):
+            if i < len(want):
+                raw = "json" not in want[i]
+                if (ln["text_key"] if raw else ln["key"]) == wkeys[i] and (raw or ln["is_json"]):
+                    i += 1
+                    continue
+            if ln["is_json"] and "json" in ln and O.is_rejection(ln["json"]):
+                continue
+            if not ln["is_json"]:
+                return ("line-torn", "the child received a line that is neither one complete outbound message nor one "
+                        "complete rejection error: a message was torn (another write landed inside it)", exp)
+            return ("unexpected-line", "the child received a line that is neither the next outbound message nor a "
+                    "rejection error", exp)
+        if i != len(want):
+            return ("message-missing", "not every serialisable outbound message reached the child as a line", exp)
+        if case.get("close", True):
+            if not o["closed_after"]:
+                return ("stdin-not-closed", "closing the write stream did not close the child's stdin", exp)
+            if o["sends_at_close"] != o["nsends"]:
+                return ("closed-before-last-write", "stdin was closed before the last write", exp)
+        if o["closed_before"]:
+            return ("stdin-closed-early", "the child's stdin was closed before the write stream was closed", exp)
+        return None
+
+    def kind(self, case, o):
+        if "harness_error" in o:
+            return "duplex/error"
+        rej = [("json" in ln and O.is_rejection(ln["json"])) for ln in o["lines"]]
+        big = any(it["k"] == "big" and it["size"] > 65_536 for it in case["items"])
+        pos = "none"
+        if any(rej):
+            first_out = next((i for i, r in enumerate(rej) if not r), None)
+            last_out = max((i for i, r in enumerate(rej) if not r), default=None)
+            inside = first_out is not None and any(r and first_out < i < last_out for i, r in enumerate(rej))
+            pos = "between-messages" if inside else "at-an-end"
+        return f"duplex/{'large' if big else 'small'}/{'slow-stdin' if case.get('drain') else 'fast-stdin'}/rejections-{pos}"
+
+    def nontrivial(self, case, o):
+        return bool(case["items"])
+
+    def shrink_candidates(self, case):
+        items, so = case["items"], case.get("stdout", [])
+        for i in range(len(items)):
+            yield dict(case, items=items[:i] + items[i + 1:])
+        for j in range(0, len(so) - 1, 2):
+            rest = so[:j] + so[j + 2:]
+            if j + 2 < len(so) and "sleep" in so[j + 2]:  # keep absolute times of the later batches
+                rest = so[:j] + [{"sleep": round(so[j]["sleep"] + so[j + 2]["sleep"], 3)}] + so[j + 3:]
+            yield dict(case, stdout=rest)
+        for i, it in enumerate(items):
+            if it["k"] == "big":
+                for size in (66_000, it["size"] // 2):
+                    if 65_000 < size < it["size"]:
+                        yield dict(case, items=items[:i] + [dict(it, size=size)] + items[i + 1:])
+                if it["shape"] != "dict":
+                    yield dict(case, items=items[:i] + [dict(it, shape="dict")] + items[i + 1:])
+            elif it["k"] != "unser" and it != SMALL_A:
+                yield dict(case, items=items[:i] + [SMALL_A] + items[i + 1:])
+
+
 def suites():
-    return [Writer("orjson"), Writer("no-orjson"), Writer("fallback")]
+    return [Writer("orjson"), Writer("no-orjson"), Writer("fallback"), Duplex()]
